@@ -25,9 +25,10 @@ def table(sel):
         out.append(f"| `{name}` | {prop} | {verdict}: {how(first)} | `{f}` |")
     return "\n".join(out)
 
-w1 = [r for r in rows if "-w2-" not in r[0] and "-w3-" not in r[0]]
+w1 = [r for r in rows if "-w2-" not in r[0] and "-w3-" not in r[0] and "-w4-" not in r[0]]
 w2 = [r for r in rows if "-w2-" in r[0]]
 w3 = [r for r in rows if "-w3-" in r[0]]
+w4 = [r for r in rows if "-w4-" in r[0]]
 counts = {}
 for r in rows: counts[r[3]] = counts.get(r[3], 0) + 1
 hrows = [l.rstrip("\n").split("\t") for l in open(f"{V}/harmless/RESULTS.tsv") if l.strip()] if os.path.exists(f"{V}/harmless/RESULTS.tsv") else []
@@ -47,10 +48,11 @@ text = f"""## 10. Seeded changes and harmless refactorings: what the checks repo
 ### 10.1 Seeded changes (must be reported)
 
 {len(rows)} seeded changes are kept under `seeded/<name>/` (`patch.diff`, the author's demonstration, `meta.json`: which
-property, what it needs to manifest, what was run — `confirmed_by_me`). They come from three waves of fresh sub-agents
-(34 + 34 + 23 changes; each agent was given only the text of the properties — waves 1 and 2: of the properties it worked on;
-wave 3: of all 18, plus an area of the source to work in and the request to avoid the index arithmetic the earlier waves had
-concentrated on — and scratch git worktrees under /tmp, nothing from /verif, with the stated purpose of testing these
+property, what it needs to manifest, what was run — `confirmed_by_me`). They come from four waves of fresh sub-agents
+(34 + 34 + 23 + 17 changes; each agent was given only the text of the properties — waves 1, 2 and 4: of the properties it
+worked on; wave 3: of all 18, plus an area of the source to work in and the request to avoid the index arithmetic the
+earlier waves had concentrated on; wave 4: with the request to hide the change in less-travelled code paths — and scratch
+git worktrees under /tmp, nothing from /verif, with the stated purpose of testing these
 checks and the request that the change compile, keep the pinned suite green and need something specific to manifest) and from the reverse patches of the eight `fix:` commits
 (`*-regress-Dn`). Every one was confirmed by hand before it was kept: it applies to /repo's HEAD, the pinned suite stays
 green with it (36 passed), and the check of its property was run against it. None was ever applied to /repo other than by
@@ -74,6 +76,11 @@ Third wave (names `Cxx-w3-…`; by area of the code: cell primitives and the sha
 wrappers, the public operations of the three iterators, the two buffer variants and `Detached`):
 
 {table(w3)}
+
+Fourth wave (names `Cxx-w4-…`; written after the machinery had been generalised for the harmless batches of §10.2, to see
+whether that had cost any detection, and asked to hide in less-travelled paths):
+
+{table(w4)}
 
 What the waves taught (every item below was a miss or an inconclusive report on the first run and is now reported with a
 concrete replay):
@@ -109,6 +116,18 @@ concrete replay):
   released is the last one the producer can reach, so nobody's access can overlap the late read (the author's demo fails
   on an assertion that the producer's push is *refused*, which C03 does not say; the pushed item goes to another slot).
   The check reports what it can show: the conformance theorem "data accesses precede the publication" no longer holds.
+* Fourth wave, first run: 13 of 17 concrete, one without failing input, three missed; all four are now concrete.
+  `C04-w4-split-mut-async-consumer-follows-producer` (`split_mut_async` returns a consumer that looks at the producer): the
+  harness named the consumer's type parameter itself, so the change could at best have broken its build, and C04 ran no
+  async profile → the async splits are run with whatever consumer type the crate returns and C04 has the `async`
+  profile; the oversteps show as wrong indices and grants. `C15-w4-waker-not-registered-on-partial-availability` (the
+  waker is kept only when nothing at all is available) → every poll gets its own task waker and a `Pending` that leaves no
+  clone of it with the iterator is a failure, for every operation and availability. `C07-w4-prod-alive-flag-store-relaxed`
+  (the accessor table and with it the proof broke, but no execution failed) → the concurrent programs look at the liveness
+  flags (`alive`), and a thread that reads a flag as `false` must thereby know everything the dropped iterator did before.
+  `C16-w4-future-send-regardless-of-iterator` (an `unsafe impl Send for MRBFuture` that forgets the iterator): futures were
+  outside the universe → `Wrap.future` in the Traits model and in the rustc probes (a future holds `&mut` to its
+  iterator); bounds on other type parameters count as satisfiable.
 * `C07-w2-release-before-flag-clear` and friends are additionally refused by the drop-protocol replay on the Lean machine
   (`decrement-before-flag-clear`).
 
